@@ -37,6 +37,7 @@ ASSUMPTIONS["C11"] = [
     "a face lying in the plane belongs to the slice whose normal opposes the face normal (source comment of slice_faces_plane; regularised solid semantics)",
     "when the plane contains mesh edges only the documented convention of triangle_cases is checked (on-edge faces with the third vertex on the positive side report the edge), coverage is not demanded",
     "Path3D.is_closed / path length are demanded only for distinct expected section points > 1e-4 apart (path merge tolerance 1e-5; for the processed Path2D of section_multiplane 1e-4 * path scale, as Path.merge_vertices works at tol_path.merge * scale); closedness also needs closed input and no vertex on the plane",
+    "'general position' for closedness also requires every crossing point reproducible in float64 to 1e-6 (64 eps scale / sin(edge, plane)): the faces sharing a cut edge compute it independently; the same conditioning bounds the difference between a local_faces call and the full call",
     "capping works at the resolution tol.merge: exact volume / watertightness of capped halves is demanded only when distinct expected section points are > 1e-6 apart and every crossing point is reproducible to 1e-9 (8 eps scale / sin(edge, plane)); a vertex taken as on-plane within tolerance widens the area / volume tolerance by the band it may move (and points within tol.merge of the surface count as on it)",
     "near-plane offsets avoid the half-grid value 5e-9 where the 1e-8 rounding grid of grouping.unique_rows may 'go either way' (documented there)",
     "transform_points' documented identity shortcut (|M - I| < 1e-8) is allowed for in the 2D round trip of section_multiplane",
@@ -318,10 +319,21 @@ def edges_of(F):
     return np.unique(e, axis=0)
 
 
-def closed_precondition(M, dots, signs, amb, min_dist=1e-4):
-    """closed input, no vertex on the plane, distinct crossing points farther apart than the path merge tolerance"""
+def closed_precondition(M, dots, signs, amb, min_dist=1e-4, nlen=1.0):
+    """'closed mesh in general position': closed input, no vertex on the plane, distinct crossing points farther apart
+    than the path merge tolerance, and every crossing point reproducible in float64 to a tenth of tol_path.merge (the
+    two faces sharing a cut edge each compute its crossing point, error ~ 64 eps scale / sin(edge, plane), and the
+    path is closed only if the two copies are fused): an edge with both ends within ~1e-7 of the plane at
+    coordinates ~1e4 is cut at 1e-11 rad and is not general position"""
     if not M["closed"] or amb or (signs == 0).any():
         return False
+    V, E = M["V"], M["E"]
+    cut = E[signs[E[:, 0]] * signs[E[:, 1]] < 0]
+    if len(cut):
+        L = np.linalg.norm(V[cut[:, 1]] - V[cut[:, 0]], axis=1)
+        inv_sin = L * nlen / np.abs(dots[cut[:, 0]] - dots[cut[:, 1]])
+        if 64 * EPS * max(float(np.abs(V).max()), 1e-300) * float(inv_sin.max()) > 1e-6:
+            return False
     return endpoints_separated(M, dots, signs, min_dist=min_dist)
 
 
@@ -370,7 +382,11 @@ def b_section(case, ctx):
             for f in full:
                 a = np.array(sorted(np.asarray(x).reshape(-1).tolist() for x in full[f]))
                 b = np.array(sorted(np.asarray(x).reshape(-1).tolist() for x in part[f]))
-                check(a.shape == b.shape and np.abs(a - b).max() <= 1e-12 * scale, sb + "|differs_from_full", lambda: f"face {f}: {b.tolist()} vs {a.tolist()}")
+                # the subset call evaluates the same formulas on shorter arrays (other BLAS blocking): the two results may
+                # differ by the float64 conditioning of the crossing points, 64 eps scale / sin(edge, plane), as in clause (2)
+                cf = exp[f][1] if f in exp else conv[f][1] if f in conv else np.zeros(2)
+                tf_ = 1e-12 * scale + 64 * EPS * scale * float(np.max(cf)) * nlen
+                check(a.shape == b.shape and np.abs(a - b).max() <= tf_, sb + "|differs_from_full", lambda: f"face {f}: {b.tolist()} vs {a.tolist()} (tol {tf_:.3g})")
 
         # Trimesh.section -> Path3D
         path = mesh.section(plane_normal=n.copy(), plane_origin=o.copy())
@@ -390,7 +406,7 @@ def b_section(case, ctx):
                 L0 = float(np.linalg.norm(lines[:, 1] - lines[:, 0], axis=1).sum())
                 L1 = float(sum(np.linalg.norm(np.diff(PV[np.asarray(e.points)], axis=0), axis=1).sum() for e in path.entities))
                 check(abs(L0 - L1) <= 1e-9 * L0 + 4e-5 * len(lines), sp + "|length", f"path length {L1} vs total segment length {L0}")
-            if closed_precondition(M, dots, signs, amb):
+            if closed_precondition(M, dots, signs, amb, nlen=nlen):
                 ctx.note(cls="closed_demanded")
                 check(bool(path.is_closed), sp + "|not_closed", lambda: f"closed mesh in general position but Path3D.is_closed is False ({len(lines)} segments, {len(path.entities)} entities)")
                 deg = Counter()
